@@ -398,6 +398,8 @@ func (db *SingleBucketBackend) PutObject(
 
 	if objectDir != "." {
 		if err := db.fs.MkdirAll(objectDir, 0777); err != nil {
+			// Part of the directory chain may have been created:
+			removeEmptyDirs(db.fs, ".", filepath.ToSlash(objectDir))
 			return result, err
 		}
 	}
@@ -410,6 +412,7 @@ func (db *SingleBucketBackend) PutObject(
 
 	f, err := db.fs.Create(objectFilePath)
 	if err != nil {
+		removeEmptyDirs(db.fs, ".", filepath.ToSlash(objectDir))
 		return result, err
 	}
 
